@@ -517,8 +517,8 @@ func (g *c18Gen) gen(family string) stCase {
 				eff = ""
 			}
 			if eff == "" && !nx.Quoted && nx.Kind != "computed" &&
-				(isASCIILetterStart(nx.Name) || strings.HasPrefix(nx.Name, "优势") || strings.HasPrefix(nx.Name, "劣势") ||
-					e.VKind == "bare-dice") { // `d7射击` lexes as one identifier
+				(e.VKind == "bare-dice" || // `d7射击` lexes as one identifier
+					stAbsorbs(e.VText, e.Kind == "mod" || strings.HasPrefix(e.VText, "("), nx.Src)) {
 				mark("abut", k)
 			}
 			if e.Kind != "mod" && strings.HasPrefix(e.VText, "(") && nx.Kind == "computed" && !strings.Contains(c.Seps[k], ",") {
@@ -546,6 +546,56 @@ func (g *c18Gen) gen(family string) stCase {
 	}
 	c.Run = stRunOne(src, g.mode, false)
 	return c
+}
+
+// stAbsorbs: does the dice syntax of the (unchanged) grammar continue the value `v` into the text `f` that follows it
+// directly?  This is the exact shape of the recorded finding "abut": `2d6` + `k敏捷70` (keep modifier), `60` + `d5` (XdY),
+// `60` + `a5` / `c5` (WoD / Double Cross pools), and — only where N-dice are allowed, i.e. in a parenthesised or modify
+// value — `<number or )>` + `d…` (the `3d` shorthand).  Everything else that abuts (`60dex70`, `2d6str5`) is NOT part of
+// the finding: the value ends where it ends and the name follows.
+func stAbsorbs(v string, ndiceAllowed bool, f string) bool {
+	if v == "" || f == "" {
+		return false
+	}
+	nos := func(s string) bool { return s != "" && (s[0] == '(' || (s[0] >= '0' && s[0] <= '9')) }
+	lc := f[0] | 0x20
+	// last atom of the value
+	kind := "int"
+	if v[len(v)-1] == ')' {
+		kind = "paren"
+	} else {
+		i := len(v)
+		for i > 0 && (v[i-1] == '.' || (v[i-1] >= '0' && v[i-1] <= '9') || (v[i-1]|0x20 >= 'a' && v[i-1]|0x20 <= 'z')) {
+			i--
+		}
+		tok := strings.ToLower(v[i:])
+		switch {
+		case strings.Contains(tok, "d") && strings.ContainsAny(tok, "kq"):
+			kind = "dicemod"
+		case strings.Contains(tok, "d"):
+			kind = "dice"
+		case strings.Contains(tok, "."):
+			kind = "float"
+		}
+	}
+	switch kind {
+	case "int", "paren":
+		if lc == 'd' && (ndiceAllowed || nos(f[1:])) {
+			return true
+		}
+		return (lc == 'a' || lc == 'c') && nos(f[1:])
+	case "dice":
+		if strings.HasPrefix(f, "kl") || strings.HasPrefix(f, "kh") || strings.HasPrefix(f, "dh") || strings.HasPrefix(f, "dl") || lc == 'k' || lc == 'q' {
+			return true
+		}
+		fallthrough
+	case "dicemod":
+		if (strings.HasPrefix(f, "min") || strings.HasPrefix(f, "max")) && nos(f[3:]) {
+			return true
+		}
+		return lc == 'd' && nos(f[1:])
+	}
+	return false
 }
 
 var c18MutAlphabet = []string{":", "=", "*", "&", "'", ",", " ", "+", "-", "(", ")", "1", "0", "d", "k", "力", "a", ".", "+=", "-=", "\n", "^st"}
